@@ -1312,6 +1312,7 @@ async fn run_pty_task(w: &mut World, p: &PtySpec) -> PtyRunOut {
         o.fail("task_spawn_rejected", format!("POST /tasks (pty) -> {st} {created}"));
         return PtyRunOut { o, codes: vec![], ended: false, notes };
     }
+    let mut log_blocked = false;
     if p.shape == 9 {
         // current-thread runtime: run_task has not been polled yet; put a directory where its log file goes
         let (_, status) = call_json(&w.app, req("GET", &format!("/tasks/{id}"), None)).await;
@@ -1320,14 +1321,19 @@ async fn run_pty_task(w: &mut World, p: &PtySpec) -> PtyRunOut {
             o.fail("harness_io", format!("no pty log ref in GET /tasks/{{id}}: {status}"));
         } else {
             let _ = std::fs::create_dir_all(blob_path(&w.ws, &lid));
+            log_blocked = blob_path(&w.ws, &lid).is_dir();
         }
     }
     let live = sse_watch(&w.app, &id);
     let mut accepted = [0u64; 4]; // 202s per op kind: stdin, resize, signal, cancel
     let kind = |op: &PtyOp| match op { PtyOp::Stdin(_) => 0usize, PtyOp::Resize(..) => 1, PtyOp::Signal(_) => 2, PtyOp::Cancel => 3 };
     let mut cancel_sent_while_unknown = false;
+    let mut early_input_accepted = false;
     for s in p.ops.iter().filter(|s| s.when == 0) {
         let st = pty_post(&w.app, &id, s).await;
+        if st == 202 && matches!(s.op, PtyOp::Stdin(_) | PtyOp::Signal(_)) {
+            early_input_accepted = true;
+        }
         notes.push(format!("pty_op_before_start={}:{st}", ["stdin", "resize", "signal", "cancel"][kind(&s.op)]));
         if st == 202 {
             accepted[kind(&s.op)] += 1;
@@ -1438,6 +1444,11 @@ async fn run_pty_task(w: &mut World, p: &PtySpec) -> PtyRunOut {
         }
     }
     let last = frames.iter().find(|e| (22..=24).contains(&frame_code(e))).unwrap();
+    if p.shape == 9 && !log_blocked {
+        // run_task got to its log file before the harness did: an ordinary run, nothing more to say about it
+        notes.push("pty_log_uncreatable=not_arranged(run_task was polled first)".into());
+        return PtyRunOut { o, codes, ended, notes };
+    }
     if (7..=9).contains(&p.shape) {
         if codes != [0, 24] {
             o.fail("failure_not_reported_failed", format!("{codes:?}"));
@@ -1448,6 +1459,9 @@ async fn run_pty_task(w: &mut World, p: &PtySpec) -> PtyRunOut {
         return PtyRunOut { o, codes, ended, notes };
     }
     let cancelled = codes.contains(&2);
+    if early_input_accepted {
+        notes.push("pty_early_input=accepted(content not predicted)".into());
+    }
     if cancelled {
         if frame_code(last) != 23 {
             o.fail("exit_status_wrong", format!("cancel recorded, terminal status is {}", last["status"]));
@@ -1456,7 +1470,7 @@ async fn run_pty_task(w: &mut World, p: &PtySpec) -> PtyRunOut {
         if frame_code(last) != 22 {
             o.fail("exit_status_wrong", format!("expected exited: {last}"));
         }
-        if let Some(x) = exit_expected {
+        if let Some(x) = exit_expected.filter(|_| !early_input_accepted) {
             if last.get("exit_code").and_then(|v| v.as_u64()) != Some(x) {
                 o.fail("exit_status_wrong", format!("expected exited/{x}: {last}"));
             }
@@ -1480,7 +1494,9 @@ async fn run_pty_task(w: &mut World, p: &PtySpec) -> PtyRunOut {
     let cap = p.cap;
     // a cancel that is not tied to a known point of the command, or a kill signal, may cut the command short
     let exact = !(cancelled && (cancel_sent_while_unknown || p.shape == 10));
-    if exact {
+    if early_input_accepted {
+        // the terminal echoed input somewhere in the output: only bytes_stored / ranges (below) can be checked
+    } else if exact {
         if blob != prefix(&expect, cap) {
             let class = if p.raw || !expect.contains(&b'\r') { "stored_not_prefix" } else if blob == prefix(&onlcr_inverse(&expect), cap) { "pty_log_not_what_the_master_delivered" } else { "stored_not_prefix" };
             o.fail(class, format!("pty log holds {} bytes that are not the first min(cap={cap}, {}) bytes the terminal delivered", blob.len(), expect.len()));
@@ -1496,7 +1512,14 @@ async fn run_pty_task(w: &mut World, p: &PtySpec) -> PtyRunOut {
     }
     let fr = delta_frames(&frames, "pty");
     let upto = u(sum, "bytes_total").min(expect.len() as u64) as usize;
-    frames_oracle(&mut o, &fr, blob.len() as u64, p.plimit, &expect[..upto], None);
+    if early_input_accepted {
+        let ranges: Vec<(u64, u64)> = fr.iter().map(|(_, v)| (u(v, "offset_bytes"), u(v, "bytes"))).collect();
+        if let Some(wh) = ranges_tile(&ranges, blob.len() as u64) {
+            o.fail("delta_ranges_do_not_tile", format!("output frames of a PTY task: {wh}"));
+        }
+    } else {
+        frames_oracle(&mut o, &fr, blob.len() as u64, p.plimit, &expect[..upto], None);
+    }
     notes.push(format!("pty_reads={}", match fr.len() { 0 => "0", 1 => "1", 2..=4 => "2-4", _ => "5+" }));
     if fr.windows(2).any(|w| !is_char_boundary(&expect, u(&w[0].1, "bytes_total") as usize)) {
         notes.push("pty_read_boundary_inside_character".into());
@@ -1880,8 +1903,15 @@ fn gen_pty(r: &mut Rng, i: u64) -> Spec {
         }
         20 => {
             p.out = vec![(gen_text(r, n1), 1)];
+            // before the start the control channel usually does not exist yet (400); a request that IS accepted takes
+            // effect (typed input is echoed, ^C kills the command): then only the structure of the log is checked
+            let early = match r.below(3) {
+                0 => PtyOp::Resize(30, 100),
+                1 => PtyOp::Stdin(b"x\n".to_vec()),
+                _ => PtyOp::Signal("SIGINT".into()),
+            };
             p.ops = vec![
-                step(0, PtyOp::Resize(30, 100)),
+                step(0, early),
                 step(2, PtyOp::Stdin(b"late\n".to_vec())),
                 step(2, PtyOp::Resize(10, 10)),
                 step(2, PtyOp::Signal("SIGINT".into())),
